@@ -1,9 +1,9 @@
-SPECIFICATION Spec
+SPECIFICATION SpecF
 CONSTANTS
-  Peers <- APeers
+  Peers <- RPeers
   Boots <- ABoots
-  Radii <- ARadii
-  ProtSets <- AProt
+  Radii = {31}
+  ProtSets <- RProt
   Targets <- ATargets
   QSat = 1
   OverSat = 2
